@@ -82,9 +82,19 @@ def gen_raised(rng):
     ops += ["sleep 3200", "ack p puback all", "sub p 2 w/x|1", "ack p puback all"]
     return ops
 
+# stratified: the way the connection ends x what happens during / after the will delay are walked through systematically (fixed
+# shuffled order of the 70 combinations; a quick run of 80 cases covers every one), the rest is random
+import itertools as _it, random as _rnd
+_GRID = list(_it.product(["disc", "disc4", "close", "takeover0", "takeover1", "term", "garbage", "keepalive", "close", "disc"],
+                         ["wait", "wait", "resume", "fresh", "term", "partial", "partial2"]))
+_rnd.Random(8).shuffle(_GRID)
+_k = [0]
+
 def gen(rng):
     if rng.random() < 0.12:
         return gen_raised(rng)
+    _end, _after = _GRID[_k[0] % len(_GRID)]
+    _k[0] += 1
     cfg_se = rng.choice([600, 600, 1])
     ops = [f"new mode={rng.choice(['overlap', 'onlyonce'])} se={cfg_se}", "conn p cp v=5 cs=1", "sub p 1 w/#|1|rap"]
     v = rng.choice([4, 5, 5])
@@ -98,11 +108,19 @@ def gen(rng):
         if se is not None:
             line += f" se={se}"
     line += f" will=w/x,{wq},{wr},{delay},W1"
+    end = _end
+    if end == "keepalive":
+        line += " ka=1"                 # read deadline = (1/2 + 1) s = 1 s after the last packet (integer arithmetic of the code)
     ops.append(line)
-    if rng.random() < 0.3:
+    if rng.random() < 0.3 and end != "keepalive":
         ops.append("ping x1")
-    end = rng.choice(["disc", "disc", "disc4", "close", "close", "takeover0", "takeover1", "term", "garbage"])
-    if end == "disc":
+    if end == "keepalive":
+        # the connection ends because the client stays silent past its keep-alive: 0.5 s of silence is survived (a PINGREQ then
+        # pushes the deadline out), 1.5 s is not — the will is due from the instant the deadline ran out
+        if rng.random() < 0.5:
+            ops.append("sleep 500"); ops.append("ping x1")
+        ops.append("sleep 1500")
+    elif end == "disc":
         ops.append("disc x1" + (f" se={rng.choice([0, 300])}" if v == 5 and rng.random() < 0.3 else ""))
     elif end == "disc4":
         # Disconnect with Will Message, possibly raising/lowering the session expiry at the same time
@@ -122,7 +140,7 @@ def gen(rng):
         # that was sent counts, however the broker's reader and handler goroutines interleave (seed C08-3)
         ops[-1] += f" pre={rng.choice([1, 2, 6])}"
     # what happens during / after the will delay
-    after = rng.choice(["wait", "wait", "resume", "fresh", "term", "partial", "partial2"])
+    after = _after
     if after == "partial":
         ops.append("sleep 700")
         after = rng.choice(["wait", "resume", "fresh"])
@@ -153,6 +171,7 @@ def predicate(ops, out):
     due = None
     fired_at = []
     online = None
+    ka_int, ka_dead = None, None     # keep-alive of the online connection: interval (s) and scenario time its read deadline runs out
     retained_expected = None
     for op, line in zip(ops, out):
         if "HANG" in line:
@@ -186,6 +205,10 @@ def predicate(ops, out):
                 else:
                     state = "due-now"            # the session ended
             online = f[1]
+            k = int(kv.get("ka", 0))
+            if v == 5: k = min(k, 300)
+            ka_int = (k // 2 + k) if k else None
+            ka_dead = now + ka_int if ka_int else None
             new_will = None
             if "will" in kv:
                 w = kv["will"].split(",")
@@ -222,8 +245,21 @@ def predicate(ops, out):
                 end_connection(False); online = None
             elif state == "pending":
                 state = "due-now"
+        elif f[0] == "ping" and f[1] == online and ka_int:
+            ka_dead = now + ka_int
         elif f[0] == "sleep":
-            now += int(f[1]) / 1000.0
+            dt = int(f[1]) / 1000.0
+            if online is not None and ka_dead is not None and now + dt >= ka_dead + 0.4:
+                # the client stayed silent past its keep-alive: the connection ended (without DISCONNECT) when the deadline ran out
+                end_t = now + dt
+                now = ka_dead
+                end_connection(False)
+                closed_here = any("closed" in conns.get(online, ([], []))[0] for _ in [0])
+                if not closed_here:
+                    return f"`{op}`: connection {online} was silent for longer than 1.5 x its keep-alive and is still open"
+                online, ka_dead = None, None
+                dt = end_t - now
+            now += dt
             if state == "pending" and due is not None and now >= due + 0.4:
                 state = "due-now"
             elif state == "pending" and due is not None and now > due - 0.4:
@@ -263,13 +299,13 @@ def nontrivial(ops, out):
     return any("will=" in o and o.split("will=")[1].split(",")[3] != "0" for o in ops) or any("t=w/x" in l for l in out)
 
 def streams(tier):
-    n = 48 if tier == "quick" else 1200
+    n = 80 if tier == "quick" else 1400
     return [(core.Stream("broker-will", "broker", gen, predicate, nontrivial, canon=wire.canon, keep_prefix=1, hint=wire.shared_hints, timeout=600), n)]
 
 def run(r):
     return core.standard_run(r, __import__(__name__, fromlist=["x"]))
 
-RULE = ("wire scenarios with real timers: will settings (QoS, retain, delay 0/2 s, v3.1.1/v5) x every way a connection ends (DISCONNECT 0x00, 0x04, "
+RULE = ("the way the connection ends (DISCONNECT 0x00 / 0x04 with and without pipelined packets, abrupt close, take-over with and without clean start, TerminateSession, a malformed packet, KEEP-ALIVE TIMEOUT after 1.5 x the interval — the read deadline is modelled in the Lean driver as an environment step) x what happens during / after the delay, walked through systematically (80 cases cover the grid); wire scenarios with real timers: will settings (QoS, retain, delay 0/2 s, v3.1.1/v5) x every way a connection ends (DISCONNECT 0x00, 0x04, "
         "close, malformed packet, take-over with/without clean start, TerminateSession) x session expiry vs delay x what happens during the delay "
         "(nothing, resume, fresh session, termination); an independent subscriber with Retain-As-Published records arrivals; a late subscriber "
         "checks the retained store. non-trivial = a delayed will, or a will that is published")
